@@ -650,7 +650,7 @@ pub fn quantile_markers(e: &average::Quantile) -> Result<QMarkers, String> {
 
 use average::{Histogram as HistTrait, InvalidRangeError, SampleOutOfRangeError};
 
-pub trait Hist: Clone + Debug + Send + Sync + Serialize + DeserializeOwned + 'static {
+pub trait Hist: Clone + Debug + Send + Sync + 'static {
     const LEN: usize;
     const NAME: &'static str;
     fn from_ranges_(v: Vec<f64>) -> Result<Self, InvalidRangeError>;
@@ -755,3 +755,98 @@ pub type H3 = h3::Histogram;
 pub type H4 = h4::Histogram;
 pub type H10 = h10::Histogram;
 pub type H100 = h100::Histogram;
+
+// const-generic twin (src/histogram_const.rs), nightly toolchain + `nightly` feature only
+#[cfg(feature = "nightly")]
+mod const_hist {
+    use super::*;
+    use average::histogram_const as hc;
+
+    fn conv_range(e: hc::InvalidRangeError) -> InvalidRangeError {
+        match e {
+            hc::InvalidRangeError::NotEnoughRanges => InvalidRangeError::NotEnoughRanges,
+            hc::InvalidRangeError::NotSorted => InvalidRangeError::NotSorted,
+            hc::InvalidRangeError::NaN => InvalidRangeError::NaN,
+        }
+    }
+
+    macro_rules! impl_const_hist {
+        ($len:expr, $name:expr) => {
+            impl Hist for hc::Histogram<$len> {
+                const LEN: usize = $len;
+                const NAME: &'static str = $name;
+                fn from_ranges_(v: Vec<f64>) -> Result<Self, InvalidRangeError> {
+                    hc::Histogram::<$len>::from_ranges(v).map_err(conv_range)
+                }
+                fn with_const_width_(a: f64, b: f64) -> Self {
+                    hc::Histogram::<$len>::with_const_width(a, b)
+                }
+                fn find_(&self, x: f64) -> Result<usize, SampleOutOfRangeError> {
+                    self.find(x).map_err(|_| SampleOutOfRangeError)
+                }
+                fn add_(&mut self, x: f64) -> Result<(), SampleOutOfRangeError> {
+                    self.add(x).map_err(|_| SampleOutOfRangeError)
+                }
+                fn bins_(&self) -> Vec<u64> {
+                    self.bins().to_vec()
+                }
+                fn ranges_(&self) -> Vec<f64> {
+                    self.ranges().to_vec()
+                }
+                fn range_min_(&self) -> f64 {
+                    self.range_min()
+                }
+                fn range_max_(&self) -> f64 {
+                    self.range_max()
+                }
+                fn reset_(&mut self) {
+                    self.reset()
+                }
+                fn iter_(&self) -> Vec<((f64, f64), u64)> {
+                    self.iter().collect()
+                }
+                fn into_iter_(&self) -> Vec<((f64, f64), u64)> {
+                    self.into_iter().collect()
+                }
+                fn widths_(&self) -> Vec<f64> {
+                    self.widths().collect()
+                }
+                fn centers_(&self) -> Vec<f64> {
+                    self.centers().collect()
+                }
+                fn normalized_(&self) -> Vec<f64> {
+                    self.normalized_bins().collect()
+                }
+                fn variances_(&self) -> Vec<f64> {
+                    self.variances().collect()
+                }
+                fn variance_(&self, i: usize) -> f64 {
+                    self.variance(i)
+                }
+                fn merge_(&mut self, o: &Self) {
+                    Merge::merge(self, o)
+                }
+                fn add_assign_(&mut self, o: &Self) {
+                    *self += o;
+                }
+                fn mul_assign_(&mut self, k: u64) {
+                    *self *= k;
+                }
+            }
+        };
+    }
+    impl_const_hist!(1, "ConstH1");
+    impl_const_hist!(2, "ConstH2");
+    impl_const_hist!(3, "ConstH3");
+    impl_const_hist!(4, "ConstH4");
+    impl_const_hist!(10, "ConstH10");
+    impl_const_hist!(100, "ConstH100");
+    pub type K1 = hc::Histogram<1>;
+    pub type K2 = hc::Histogram<2>;
+    pub type K3 = hc::Histogram<3>;
+    pub type K4 = hc::Histogram<4>;
+    pub type K10 = hc::Histogram<10>;
+    pub type K100 = hc::Histogram<100>;
+}
+#[cfg(feature = "nightly")]
+pub use const_hist::*;
